@@ -152,13 +152,14 @@ def gen_layout(rng, ss, storages, streams, mode=None, force_nfat=None, surplus=T
             "chains": [c[1] for c in chains], "slots": slots,
             "pad": rng.choice([0, 0, 0xFF, 0xAA, rng.randrange(256)]),
             "hi": rng.choice([0, 0, 0xFFFFFFFF, 1, rng.randrange(1 << 32)]) if ss == 512 else rng.choice([0, 7]),
+            "es": rng.choice([EOC, EOC, 0, 0, FREE, 1, rng.randrange(1 << 32)]),
             "mode": mode}
 
 def lay_text(l):
     j = lambda x: ",".join(str(i) for i in x)
     return "|".join([str(l["nsect"]), j(l["fat"]), j(l["difat"]), j(l["dir"]), j(l["minifat"]), j(l["root"]),
                      str(l["nmini"]), "/".join(j(c) for c in l["chains"]) if l["chains"] else "-",
-                     j(l["slots"]), str(l["pad"]), str(l["hi"])])
+                     j(l["slots"]), str(l["pad"]), str(l["hi"]), str(l["es"])])
 
 def hx(s):
     return s.encode("utf-8").hex() or "-"
@@ -342,7 +343,7 @@ def boundary_cases(rng, tier):
                 continue
             cases.append(make_case(rng, "b%d" % k, ss, sizes=[4096, 100, 9000], mode=rng.choice(["shuffled", "sequential"]),
                                    force_nfat=nf, tag="difat_chain")); k += 1
-    # names that begin like a byte-order mark (known class 1)
+    # names that begin like a byte-order mark (class bom_name until Directory::from_slice was fixed)
     for nm in ("\ufeffWorkbook", "\ufffeab", "\ubbef\u00bfx"):
         cases.append(make_case(rng, "b%d" % k, 512, sizes=[100], nstor=0, names=[nm], tag="bom_name")); k += 1
     return cases
